@@ -164,6 +164,17 @@ func vfC13Scenarios(thorough bool) []*vfGWScenario {
 			Validators: []vfValCfg{{Name: "V", Topic: "t", Gated: true, GateOnly: []string{"m1"}}}},
 			Alphabet: alphabet, Msgs: msgs, Depth: d, Leaf: []string{"retire"}})
 	}
+	// a peer whose outbound stream has already died (and been re-opened) three times: the next deaths use up the
+	// re-open budget (backoff.go MaxBackoffAttempts), after which the node gives the peer up while it is still
+	// connected and in the mesh
+	{
+		peers := []vfPeerCfg{{Name: "p", Proto: "v12", IP: "10.0.0.1"}, {Name: "q", Proto: "v12", IP: "10.0.0.2"}}
+		out = append(out, &vfGWScenario{Name: "respawn-budget", Cfg: vfGWCfg{Router: "gossip", Peers: peers, Topics: []string{"t"}, Params: "d2", Scoring: true, ScoreTopics: true,
+			Gater: true, TestExt: true, DecayMs: 1000, ScoreSeenS: 5, SeenTTL: 5,
+			Prefix:     []string{"conn:q", "sub:q:t", "join:t", "conn:p", "sub:p:t", "graft:p:t", "outreset:p", "adv:1100", "outreset:p", "adv:1100", "outreset:p", "adv:1100"},
+			Validators: []vfValCfg{{Name: "V", Topic: "t", Gated: true, GateOnly: []string{"m1"}}}},
+			Alphabet: []string{"outreset:p", "adv:1100", "graft:p:t", "prune:p:t", "inclose:p", "inopen:p", "sub:p:t", "disc:p", "conn:p", "hb"}, Msgs: msgs, Depth: d, Leaf: []string{"retire"}})
+	}
 	// two peers behind one IP address (the gater and the scorer keep per-IP state shared between them)
 	for _, proto := range []string{"v11"} {
 		peers := []vfPeerCfg{{Name: "p", Proto: proto, IP: "10.0.0.1"}, {Name: "q", Proto: "v12", IP: "10.0.0.1"}}
